@@ -1,7 +1,7 @@
 """C01 — loading and inspecting arbitrary bytes is memory-safe and terminates.
 
-Proof (Props/C01.lean, helper lemmas Lemmas/LoadSafety.lean; for ALL byte strings, both stream kinds,
-eager and lazy, any stream state, any previous object):
+Proof (Props/C01.lean, helper lemmas Lemmas/LoadSafety.lean + Lemmas/Inspect.lean; for ALL byte strings,
+both stream kinds, eager and lazy, any stream state, any previous object):
  * `load_total` / `load_total_anyStream`: the loader model, whose every buffer access is a checked
    read, never faults (also with an address translation table);
  * `load_inv` (`secLoad_inv`, `segLoad_inv`): every section/segment of the result satisfies
@@ -15,13 +15,34 @@ eager and lazy, any stream state, any previous object):
    free_data() with arbitrary indices keep the invariants and the allocation bound (lazy loads mutate);
  * `getString_total`: the string reader is safe on every loaded section for EVERY 32-bit index and
    returns a NUL-free run of input bytes inside [0,size);
+ * INSPECTION (Model/Inspect.lean = what Driver/Load.lean executes for the ops notes / segnotes / dyn /
+   syms / modinfo / dump):  `inspect_total`: on an object satisfying the loader invariant `ObjInv`
+   (`load_objInv`), input length <= 2^32-3 (`InputBound`, the bound C13's `get_note_total` needs), EVERY
+   query -- header/section/segment getters and data, free_data, `str i k`, `noteNum i`/`note i k`,
+   `segNoteNum j`/`segNote j k`, `dynNum i`/`dyn i k`, `symNum i`/`sym i k`, `modinfo i`/`modinfoGet i k`/
+   `modinfoByName i f`, `validate`, `dump` -- with ARBITRARY section, segment and entry indices returns
+   without a fault and re-establishes `ObjInv`; `inspect_seq_total` / `load_inspect_total`: hence every
+   finite query sequence after every load.  `dump_total`: the read trace of elfio_dump.hpp (symbol tables:
+   every symbol of every SHT_SYMTAB/DYNSYM section; notes: every note of every SHT_NOTE section and PT_NOTE
+   segment incl. every descriptor byte; `.modinfo`; dynamic tags up to DT_NULL; first 64 data bytes of every
+   section and segment).  It composes `load_inv`/`getData_inv` with the accessor families' models:
+   notes = C13.get_note_total via `LoadedSec -> SrcOk`; NEW total-safety theorems for ARBITRARY content /
+   sh_entsize / sh_size / sh_link (the families' own theorems assume well-formed tables):
+   `Inspect.dyn_entriesNum_total`, `Inspect.dyn_getEntry_total` (Model/Dynamic.lean),
+   `Inspect.sym_num_total`, `Inspect.sym_get_total` (Model/Symbols.lean), `Inspect.modinfo_total`
+   (Model/Modinfo.lean; needs the loader's NUL terminator), `Inspect.str_sites_total` (C08's site-tied
+   get_string).  The accessor models' own `SecBuf.getData` is the identity after `sections[i]->get_data()`
+   (`Inspect.getData_of_settled`, `secGetData_settled`).
  * `LoadedSec.size_lt / resident_facts / rdRange_ok`, `exposes_only_file_bytes`: what the accessor
    families' `*_total` theorems instantiate.
  Remark: `validate` (Model/Validate.lean) is a total pure function — nothing to prove.
-Partial: symbol/note/dynamic/modinfo readers and `dump` are the accessor families' theorems (C13, C12,
-C14, C18 ...) instantiated with `LoadedSec`; here they are covered by correspondence only.  The theorems
-are about the checked-memory model; the implementation side of memory safety is observed by sanitizers
-on the generated inputs.  Termination is Lean's (all model functions are structurally recursive).
+Correspondence only (not in the theorems): the TEXT the dump facility prints and dump::header /
+section_headers / segment_headers (getters; `sections[member index]` of segment_headers is not in the trace);
+the symbol accessor's constructor (`find_hash_section`, getters only) and the by-name / by-value / hash
+lookups (C09/C18); `ifstream` vs `istringstream` differences.  The theorems are about the checked-memory
+model; the implementation side of memory safety is observed by sanitizers on the generated inputs.
+Termination is Lean's (all model functions are structurally recursive; the fuel of the note walker, the
+dynamic count loop and the modinfo parser is proved sufficient).
 Correspondence: harness/load.cpp (real code under ASan/UBSan/_GLIBCXX_ASSERTIONS, allocation
 log through operator new[](nothrow)) vs Driver/Load.lean.  Oracle: no FAULT anywhere, every logged
 allocation <= len+1 (== len+1 is the open known finding F11: the NUL terminator).
@@ -38,14 +59,35 @@ THEOREMS = ["ElfioVerif.C01.load_total", "ElfioVerif.C01.load_total_anyStream", 
             "ElfioVerif.C01.getString_total", "ElfioVerif.C01.exposes_only_file_bytes",
             "ElfioVerif.C01.seg_exposes_only_file_bytes",
             "ElfioVerif.C01.LoadedSec.size_lt", "ElfioVerif.C01.LoadedSec.resident_facts",
-            "ElfioVerif.C01.LoadedSec.rdRange_ok"]
-SITES = ["conv", "is_sect_in_seg", "load_s", "sec32_load", "sec64_load", "seg32_load", "seg64_load", "validate", "find_prog"]
+            "ElfioVerif.C01.LoadedSec.rdRange_ok",
+            "ElfioVerif.C01.inspect_total", "ElfioVerif.C01.inspect_seq_total", "ElfioVerif.C01.load_inspect_total",
+            "ElfioVerif.C01.dump_total", "ElfioVerif.C01.load_objInv",
+            "ElfioVerif.Inspect.notes_total", "ElfioVerif.Inspect.dyn_entriesNum_total",
+            "ElfioVerif.Inspect.dyn_getEntry_total", "ElfioVerif.Inspect.sym_num_total",
+            "ElfioVerif.Inspect.sym_get_total", "ElfioVerif.Inspect.modinfo_total",
+            "ElfioVerif.Inspect.str_sites_total", "ElfioVerif.Inspect.secGetData_settled",
+            "ElfioVerif.Inspect.getData_of_settled"]
+SITES = ["conv", "is_sect_in_seg", "load_s", "sec32_load", "sec64_load", "seg32_load", "seg64_load", "validate", "find_prog",
+         "note_walk", "note_get", "note_num", "dyn_num", "dyn_get", "dyn32_get", "dyn64_get", "dynstr_get", "dyn_strtab",
+         "sym_num", "sym32_get", "sym64_get", "str_get", "symstr_get", "mod_loop", "mod_rec", "mod_advance", "mod_value",
+         "mod_get", "mod_num"]
 RULE = ("byte strings: random bytes behind each of the four valid idents; structure-aware mutations "
         "(tools/elfspec.mutate: boundary values 0,1,len-1,len,len+1,2^31,2^32-1,2^63,2^64-1 in header/table "
-        "fields, bit flips, zeroed runs, truncation) of encoder-built images and of small bundled examples; the "
-        "archived crash-* files; x {eager,lazy} x {string,file}; each followed by hdr, every section/segment "
-        "(+1 beyond), section-name string lookups at boundary indices, validate, dump. non-trivial = load "
-        "returned true or at least one section was created; distinct by md5")
+        "fields, bit flips, zeroed runs, truncation) of encoder-built images and of small bundled examples; "
+        "encoder-built images with TYPED tables (elfspec.random_model(typed=..): SHT_NOTE sections and PT_NOTE "
+        "segments over them, SHT_DYNAMIC, SHT_SYMTAB/DYNSYM + SHT_STRTAB, .modinfo; contents from the *_blob "
+        "builders: well-formed records plus field-level corruptions -- note namesz/descsz in {0,1,3,4,5,7,rest-12,"
+        "rest-11,rest,2^31,2^32-1,..}, all residues mod 4, last note cut at structural boundaries +-1, trailing "
+        "garbage; dynamic with/without DT_NULL, string offsets in/out of range; symbol st_name in/out of range; "
+        "string tables unterminated/empty; modinfo without '=', without final NUL, NUL runs, empty; sh_entsize in "
+        "{record size,0,1,size-1,size+1,2*size,2^31,max}, sh_link valid/self/out of range/wrapping mod 2^16), intact "
+        "or mutated; one-note small scope (namesz,descsz in [0,9]^2 x every body size; sampled in quick, exhaustive "
+        "in thorough) as section and as segment; the archived crash-* files; x {eager,lazy} x {string,file}; each "
+        "followed by hdr, every section/segment (+1 beyond), string lookups at boundary indices, the accessor op "
+        "matching each section/segment type (notes, segnotes, dyn, syms, modinfo: count + boundary indices "
+        "{0,1,n-1,n,n+1,size-1,size,2^32-1,2^64-1}), accessors on sections of other types, indices beyond the tables, "
+        "dump before or after them, validate. non-trivial = load returned true or at least one section was created; "
+        "distinct by md5")
 ASSUMPTIONS = ["new(nothrow) succeeds for requests <= len+1", "inputs shorter than 2^64 bytes (hypothesis of the allocation bound only)"]
 TRUSTED = ["ASan/UBSan/_GLIBCXX_ASSERTIONS as fault detectors on the implementation side"]
 KEEP_FIRST = 1
